@@ -105,7 +105,9 @@ fn get_inner_expr<'a>(
     context: &RewriteContext<'_>,
 ) -> &'a ast::Expr {
     if let ast::ExprKind::Block(ref block, ref label) = expr.kind {
-        if !needs_block(block, label, prefix, context) {
+        // A block that carries attributes (`#[attr] { .. }`, `{ #![attr] .. }`) is kept: the
+        // attributes would be dropped along with the braces.
+        if expr.attrs.is_empty() && !needs_block(block, label, prefix, context) {
             // block.stmts.len() == 1 except with `|| {{}}`;
             // https://github.com/rust-lang/rustfmt/issues/3844
             if let Some(expr) = block.stmts.first().and_then(stmt_expr) {
